@@ -152,11 +152,18 @@ func runCheck(id, tier string) int {
 	}
 	viol, err := spec.Run(env)
 	wall := time.Since(start).Seconds()
+	if lerr := env.FlushLog(); lerr != nil {
+		return infraExit(lerr)
+	}
 	if err != nil {
 		tree.Close()
 		return infraExit(err)
 	}
-	if werr := ctx.Ev.Write(filepath.Join(verifDir, "evidence"), wall, viol); werr != nil {
+	evDir := filepath.Join(verifDir, "evidence")
+	if d := os.Getenv("VERIF_EVIDENCE_DIR"); d != "" {
+		evDir = d
+	}
+	if werr := ctx.Ev.Write(evDir, wall, viol); werr != nil {
 		tree.Close()
 		return infraExit(werr)
 	}
